@@ -4,7 +4,7 @@
    also accepted while a callback runs, i.e. from inside it), clock steps and the runtime's
    expiry steps (enabled only at or after the deadline).  [trace xs] is the event trace and
    [final xs] the state they lead to from a fresh Mgr. *)
-From Cell2V Require Import Common.Tac Common.ListX Common.AList C14.Model C14.Spec C14.Proofs.
+From Cell2V Require Import Common.Tac Common.ListX Common.AList C14.Model C14.Spec C14.Proofs C14.Corr.
 
 (* Once the owner has cancelled an existing timer - while armed, while its expiry is in
    flight or queued, from inside its own or another callback, after it is done - its
@@ -130,6 +130,27 @@ Print Assumptions C14_ids_unique.
 Theorem C14_ops_are_steps : forall ops, ops_trace init ops = trace (steps_of init ops).
 Proof. exact ops_are_steps. Qed.
 Print Assumptions C14_ops_are_steps.
+
+(* The executable monitor (Spec.monitor_from / Corr.monitor, unchanged) accepts the model's own
+   observations for EVERY op list: a monitor failure on an implementation trace is therefore a
+   behaviour the model - and with it the theorems above - excludes. *)
+Theorem C14_monitor_accepts_model : forall ops, monitor (ops, run ops) = true.
+Proof. exact monitor_accepts_model. Qed.
+Print Assumptions C14_monitor_accepts_model.
+
+(* What the monitor's two logical clauses stand for, over all step lists.
+   [negb (m_cancelled i)]: no callback after a cancel of its timer (= C14_never_after_cancel). *)
+Theorem C14_monitor_clause_not_cancelled : forall xs k c a t1 t2,
+  trace xs = t1 ++ ECb k c a :: t2 -> ~ cancelled_in k t1.
+Proof. exact clause_not_cancelled. Qed.
+Print Assumptions C14_monitor_clause_not_cancelled.
+
+(* [m_rep i || (m_count i =? 0)]: a one-shot's callback has not run before (= C14_oneshot_once). *)
+Theorem C14_monitor_clause_oneshot_first : forall xs k c a t1 t2 clk d rep a0,
+  trace xs = t1 ++ ECb k c a :: t2 ->
+  creation k t1 = Some (clk, d, rep, a0) -> repeating d rep = false -> count_cb k t1 = 0.
+Proof. exact clause_oneshot_first. Qed.
+Print Assumptions C14_monitor_clause_oneshot_first.
 
 (* ---- non-vacuity ---- *)
 (* cancel while queued (timer 0), from another timer's callback (timer 1 cancels 2), from the
